@@ -37,7 +37,7 @@ def cases(seed, tier):
     for i in range(nx):
         rng = random.Random(sub_seed(seed, "c16d", i))
         out.append({"group": "extra", "kind": "x0dtype", "seed": sub_seed(seed, "c16ds", i), "xdtype": ["float32", "int64", "float32", "int32", "float64"][i % 5],
-                    "ns": rng.choice([3, 7, 10, 33, 100, 257]), "nb": rng.choice([0, 1, 4]), "const": i % 4 == 0})
+                    "ns": rng.choice([3, 7, 10, 33, 100, 257]), "nb": rng.choice([0, 1, 4]), "const": i % 4 == 0, "inplace_step": i % 3 == 1})
     return out
 
 
@@ -169,13 +169,20 @@ def run_x0dtype(desc):
     if integer:
         x0 = torch.randint(-3, 4, (2,), generator=tg).to(xdt)
 
-        def step(x, *pp):                     # deterministic walk on the integer lattice
+        def step_map(x):                      # deterministic walk on the integer lattice
             return (x * 3 + 1) % 7 - 3
     else:
         x0 = (torch.randn(2, generator=tg, dtype=DT) * 0.5).to(xdt)
 
-        def step(x, *pp):                     # deterministic chaotic map kept in x's own dtype
+        def step_map(x):                      # deterministic chaotic map kept in x's own dtype
             return (torch.sin(x * 2.7 + 0.3) * 1.5).to(x.dtype)
+    if desc.get("inplace_step"):
+        def step(x, *pp):                     # the caller's step advances the state IN PLACE and hands back the same tensor object
+            x.copy_(step_map(x))
+            return x
+    else:
+        def step(x, *pp):
+            return step_map(x)
     a = (0.5 + torch.rand(2, generator=tg, dtype=DT)).requires_grad_()
     mu = (0.3 * torch.randn(2, generator=tg, dtype=DT)).requires_grad_()
     cconst = torch.randn(3, generator=tg, dtype=DT)
@@ -188,17 +195,18 @@ def run_x0dtype(desc):
 
     def logp(x, mu_):
         return (-0.5 * (x.to(DT) - mu_) ** 2).sum()
-    mech = "x0dtype:%s:%s" % (desc["xdtype"], "const" if desc["const"] else "f")
+    mech = "x0dtype:%s:%s%s" % (desc["xdtype"], "const" if desc["const"] else "f", ":inplace_step" if desc.get("inplace_step") else "")
+    x0_start = x0.clone()
     try:
-        y = mcquad(f, logp, x0, fparams=(a,), pparams=(mu,), method="mhcustom", nsamples=ns, nburnout=nb, custom_step=step)
+        y = mcquad(f, logp, x0.clone(), fparams=(a,), pparams=(mu,), method="mhcustom", nsamples=ns, nburnout=nb, custom_step=step)
         ga, = torch.autograd.grad(y.sum(), (a,), allow_unused=True)
     except Exception as e:
         obs.exc_violation("extra:" + mech, e)
         obs.nontrivial = True
         return obs.result()
-    chain = [x0]
+    chain = [x0_start]
     for _ in range(nb + ns + 1):
-        chain.append(step(chain[-1]))
+        chain.append(step_map(chain[-1]))
     obs.check(y.dtype == DT, "extra:dtype:" + mech, "f and log p compute in float64 but the result is %s" % y.dtype)
     best, bestg = None, None
     for start in (nb, nb + 1):                # first sample = state number nburnout or nburnout+1 (both accepted, as in the main groups)
